@@ -324,3 +324,18 @@ package state
 //@   ensures abciAPI.OnlyTree(abciAPI.TreeOf(ctx))
 //@   ensures err != nil && !unavail(err) ==> GWrites == old(GWrites)
 //@   ensures err == nil ==> GAcctSum == old(GAcctSum) && mapEq(GGen, old(GGen)) && mapEq(GActB, old(GActB)) && mapEq(GActS, old(GActS)) && mapEq(GDebB, old(GDebB)) && mapEq(GDebS, old(GDebS)) && mapEq(GNonce, old(GNonce))
+
+// ---- stake accumulator cache queries used by the scheduler (C14) ----
+
+//@ func StakeAccumulatorCache.GetEscrowBalance
+//@   trusted
+//@   modifies nothing
+//@   ensures err != nil ==> result0 == nil
+//@   ensures err == nil ==> result0 != nil && fresh(result0) && QV(result0) >= 0
+//@   note a clone of the cached account's active escrow balance (stored balances are valid quantities)
+
+//@ func StakeAccumulatorCache.CheckStakeClaims
+//@   trusted
+//@   modifies nothing
+//@   ensures (err == nil) == ufb("stakeClaimsCovered", c, addr)
+//@   note read-only: compares the entity's escrow balance with the sum of the thresholds of its recorded stake claims
